@@ -901,10 +901,16 @@ def _update(I, ev, stmt, tab, crec, eff):
             tab.cols[c] = z3.Store(tab.cols[c], key, z3.If(hit, v, z3.Select(old.cols[c], key)))
             tab.nulls[c] = z3.Store(tab.nulls[c], key, z3.If(hit, n, z3.Select(old.nulls[c], key)))
         crec.fields["rowcount"] = SInt(z3.If(hit, z3.IntVal(1), z3.IntVal(0)))
-        eff.update(key=key, hit=hit, rest=rest, sets=newvals, pinned=True)
+        # the statement's own WHERE over an ARBITRARY table state (fresh arrays, unrelated to anything read before): what the
+        # statement guarantees by itself when other transactions may have committed since this connection last looked
+        anyt = Table(tab.schema, fresh_name("@any"))
+        hit_any = z3.And(z3.Not(knull), z3.Select(anyt.exists, key), *[ev.cond(c, anyt, key) for c in rest])
+        eff.update(key=key, hit=hit, rest=rest, sets=newvals, pinned=True, hit_any=hit_any, any_tab=anyt)
     else:
         r = z3.Int(fresh_name("urow"))
         hit = z3.And(z3.Select(old.exists, r), ev.cond(stmt.where, old, r))
+        anyt = Table(tab.schema, fresh_name("@any"))
+        eff.update(hit_any=z3.And(z3.Select(anyt.exists, r), ev.cond(stmt.where, anyt, r)), any_tab=anyt)
         for c, e in stmt.sets:
             v, n = ev.expr(e, old, r)
             tab.cols[c] = z3.Lambda([r], z3.If(hit, v, z3.Select(old.cols[c], r)))
